@@ -38,6 +38,13 @@ type Model struct {
 
 func NewModel() *Model { return &Model{DBs: map[string]*MDB{}} }
 
+// invalidDBName: a database name is one path element; anything that is a path
+// (written as a quoted identifier) names no database and can create none.
+func invalidDBName(n string) bool {
+	n = strings.Trim(n, "\"")
+	return n == "" || n == "." || n == ".." || strings.ContainsAny(n, "/\\\x00")
+}
+
 func (m *Model) Clone() *Model {
 	c := &Model{DBs: map[string]*MDB{}, Order: append([]string(nil), m.Order...), Cur: m.Cur, Ghosts: append([]string(nil), m.Ghosts...)}
 	for k, d := range m.DBs {
@@ -258,6 +265,9 @@ func condColsKnown(t *MTable, w *Cond) bool {
 func (m *Model) Predict(s *Stmt) *Expect {
 	switch s.Kind {
 	case KCreateDB:
+		if invalidDBName(s.DB) {
+			return fail(EDBNotExist, "invalid")
+		}
 		name := strings.ToLower(s.DB)
 		if _, ok := m.DBs[name]; ok {
 			return fail(EDBExists)
@@ -273,6 +283,9 @@ func (m *Model) Predict(s *Stmt) *Expect {
 			}
 		}}
 	case KUse:
+		if invalidDBName(s.DB) {
+			return fail(EDBNotExist, "invalid")
+		}
 		name := strings.ToLower(s.DB)
 		if _, ok := m.DBs[name]; !ok {
 			return fail(EDBNotExist)
